@@ -26,6 +26,7 @@ open TruthModel TruthModel.Types
 mutual
 def constsS : Stmt → List (Nat × TExpr)
   | .constDecl x e => [(x, e)]
+  | .constDecls ds => ds
   | .ite _ t e => constsSS t ++ constsSS e
   | .while_ _ b => constsSS b
   | .doWhile _ b => constsSS b
@@ -162,6 +163,28 @@ def simpE (F : FloatOps) (cs : Consts) : TExpr → Outcome (TExpr × Nat)
     | .ok (args', k) => .ok (.call f args', k)
     | .err c => .err c
     | .panic p => .panic p
+  -- `walk_expr_mut` simplifies the cases of a difficulty switch and the pseudo-arguments and
+  -- arguments of any call; the nodes themselves are left alone (`_ => return`).  A qualified enum
+  -- constant would be replaced by its cached value; enum values are not part of this model, the
+  -- node is left alone (the programs of the C04 correspondence contain none).
+  | .diffSwitch first rest =>
+    match simpE F cs first with
+    | .ok (first', k) =>
+      match simpCases F cs rest with
+      | .ok (rest', j) => .ok (.diffSwitch first' rest', k + j)
+      | .err c => .err c
+      | .panic p => .panic p
+    | .err c => .err c
+    | .panic p => .panic p
+  | .callx u f ps args =>
+    match simpPseudos F cs ps with
+    | .ok (ps', k) =>
+      match simpArgs F cs args with
+      | .ok (args', j) => .ok (.callx u f ps' args', k + j)
+      | .err c => .err c
+      | .panic p => .panic p
+    | .err c => .err c
+    | .panic p => .panic p
   | e => simpNode F cs e
 def simpArgs (F : FloatOps) (cs : Consts) : TArgs → Outcome (TArgs × Nat)
   | .nil => .ok (.nil, 0)
@@ -170,6 +193,33 @@ def simpArgs (F : FloatOps) (cs : Consts) : TArgs → Outcome (TArgs × Nat)
     | .ok (a', k) =>
       match simpArgs F cs as with
       | .ok (as', j) => .ok (.cons a' as', k + j)
+      | .err c => .err c
+      | .panic p => .panic p
+    | .err c => .err c
+    | .panic p => .panic p
+def simpCases (F : FloatOps) (cs : Consts) : TCases → Outcome (TCases × Nat)
+  | .nil => .ok (.nil, 0)
+  | .blank rest =>
+    match simpCases F cs rest with
+    | .ok (rest', j) => .ok (.blank rest', j)
+    | .err c => .err c
+    | .panic p => .panic p
+  | .case e rest =>
+    match simpE F cs e with
+    | .ok (e', k) =>
+      match simpCases F cs rest with
+      | .ok (rest', j) => .ok (.case e' rest', k + j)
+      | .err c => .err c
+      | .panic p => .panic p
+    | .err c => .err c
+    | .panic p => .panic p
+def simpPseudos (F : FloatOps) (cs : Consts) : TPseudos → Outcome (TPseudos × Nat)
+  | .nil => .ok (.nil, 0)
+  | .cons kind e rest =>
+    match simpE F cs e with
+    | .ok (e', k) =>
+      match simpPseudos F cs rest with
+      | .ok (rest', j) => .ok (.cons kind e' rest', k + j)
       | .err c => .err c
       | .panic p => .panic p
     | .err c => .err c
@@ -197,6 +247,15 @@ def optN (F : FloatOps) (cs : Consts) : Option TExpr → Outcome Nat
   | none => .ok 0
   | some e => exprN F cs e
 
+/-- the initialisers of a multi-variable declaration, in order -/
+def declsN (F : FloatOps) (cs : Consts) : List (Nat × Option TExpr) → Outcome Nat
+  | [] => .ok 0
+  | (_, init) :: rest => seqN (optN F cs init) (declsN F cs rest)
+
+def constDeclsN (F : FloatOps) (cs : Consts) : List (Nat × TExpr) → Outcome Nat
+  | [] => .ok 0
+  | (_, e) :: rest => seqN (exprN F cs e) (constDeclsN F cs rest)
+
 mutual
 /-- `VisitMut` over a statement: every expression it contains -/
 def simpStmt (F : FloatOps) (cs : Consts) : Stmt → Outcome Nat
@@ -217,6 +276,8 @@ def simpStmt (F : FloatOps) (cs : Consts) : Stmt → Outcome Nat
   | .script b => simpStmts F cs b
   | .interruptLabel e => exprN F cs e
   | .relTimeLabel e => exprN F cs e
+  | .decls ds => declsN F cs ds
+  | .constDecls ds => constDeclsN F cs ds
 def simpStmts (F : FloatOps) (cs : Consts) : Stmts → Outcome Nat
   | .nil => .ok 0
   | .cons s ss => seqN (simpStmt F cs s) (simpStmts F cs ss)
